@@ -18,6 +18,9 @@ from .lib import exc_name, fail, icmp, truthy_atom
 SEQ_CLASSES = {("ext", "collections.abc.Sequence"), ("builtin", "list"), ("builtin", "tuple"), ("builtin", "str")}
 
 
+LOG_METHODS = ("debug", "info", "warning", "warn", "error", "critical", "exception", "log")
+
+
 @dataclass
 class Obligation:
     kind: str  # SUB | NEXT | NONEMPTY | DIV | ORDER | NOTNONE | FORMAT
@@ -253,6 +256,12 @@ class Collector:
                 self.walk(a, c.cond[:k], c.node)
             for a in list(c.args) + [v for _, v in c.kwargs]:
                 self.walk(a, c.cond, c.node)
+            if c.fn[0] == "meth" and c.fn[1] in LOG_METHODS and len(c.args) >= (4 if c.fn[1] == "log" else 3):
+                # logger.warning(msg, *args): logging evaluates `msg % args` when the record is rendered
+                self.add("LOGFORMAT", ("call", c.fn, tuple(c.args), tuple(c.kwargs)), c.cond, c.node)
+            if c.fn[0] in ("param", "free", "attr", "lv", "la", "ite", "const"):
+                # a value that is called: `callback()` on an Optional callback is a TypeError ('NoneType' object is not callable)
+                self.add("NOTNONE", c.fn, c.cond, c.node, "callee of a call")
         for l in s.loops.values():
             if l.iter is not None:
                 self.walk(l.iter, l.cond, l.node)
@@ -688,6 +697,23 @@ class Discharger:
             if (nm[0] == "const" and isinstance(nm[1], str)) or t_ == ("ext", "builtins.str") or nm[0] == "proj":
                 return "D16 attribute name is a string"
             return None
+        if ob.kind == "LOGFORMAT":
+            t = ob.term
+            args = list(t[2][2:] if t[1][1] == "log" else t[2][1:])
+            msg, rest = args[0], args[1:]
+            if msg[0] != "const" or not isinstance(msg[1], str):
+                return None  # a template containing run-time text: a '%' in the text is read as a directive
+            import re as _re
+            convs = []
+            for m_ in _re.finditer(r"%(?:\((\w+)\))?[#0\- +]*(\*|\d+)?(?:\.(\*|\d+))?[hlL]?(.)?", msg[1]):
+                if m_.group(4) == "%":
+                    continue
+                if m_.group(4) is None or m_.group(4) not in "sra" or m_.group(1) or m_.group(2) == "*" or m_.group(3) == "*":
+                    return None
+                convs.append(m_.group(4))
+            if len(convs) != len(rest):
+                return None
+            return "D19 logging call with a constant %-template: only %s/%r/%a directives, as many as arguments"
         if ob.kind == "STRFORMAT":
             # str.format: the template must be a constant whose replacement fields are all supplied (a template built
             # from input text re-reads braces in the data as fields: KeyError / IndexError / ValueError)
